@@ -315,19 +315,20 @@ for o in written:
                          what=f"reviewed address escape of `{o['object']}` ({o['file']}) IS written concurrently",
                          signature=f"C18:reviewed-escape-written:{o['file']}:{o['object']}")
     else:
-        exhibit = rep
-        crash = next((c for c in crashes if int(c["cfg"][5]) == 0), None)
-        mm = next((m for m in mismatches if not m["m2c"]), None)
-        found = bool(exhibit) or bool(mm)
+        # a failing input for THIS object is only a ThreadSanitizer report whose location is this
+        # object; mismatches / crashes of the same runs are reported below as violations of their own
+        exhibit = rep if (rep and rep.get("location") == "global" and o in find_obj(rep.get("global") or "")) else None
+        found = exhibit is not None
         ck.violation({"stage": "proof+tie", "theorem_or_correspondence": "MirVerif.C18.inventory_sites_allowed",
                       "input": {"object": o["object"], "file": o["file"], "write_sites": o["writes"], "type": o["type"],
-                                "harness_cmd": (exhibit or {}).get("cmd") or (mm or {}).get("cmd"),
-                                "harness": None if not exhibit else exhibit["cmd"].split(" ")[1:]},
+                                "harness_cmd": exhibit["cmd"] if found else None,
+                                "harness": exhibit["cmd"].split(" ")[1:] if found else None},
                       "model_output": "Gen.C18.writeSites contains a site that is neither a known finding nor a reviewed escape",
-                      "impl_output": (exhibit or {}).get("text") or mm or (crash and crash["stderr_tail"]),
-                      "how_to_rerun": ((exhibit or {}).get("cmd") or "") + "   (TSAN_OPTIONS=exitcode=0; build: see checks/c18.py build_tsan)"},
+                      "impl_output": exhibit["text"] if found else None,
+                      "how_to_rerun": (exhibit["cmd"] + "   (TSAN_OPTIONS=exitcode=0; build: see checks/c18.py build_tsan)") if found
+                      else "VERIF_REPO=<tree> ./check C18   (static finding; no ThreadSanitizer report names this object)"},
                      what=f"new shared write: {o['file']}: static `{o['object']}` ({o['type']}) written in " + ", ".join(sites) +
-                          (" -- interference exhibited (ThreadSanitizer race / differing result)" if found else ""),
+                          (" -- interference exhibited (ThreadSanitizer race on this object)" if found else ""),
                      signature=sig(o), found_input=found)
 
 # ---- reports the inventory cannot explain, mismatches, crashes of main runs
